@@ -93,7 +93,10 @@ CHECKS.update({
                   "observed at the numflux seam of the real operators + exact kappa-stencil columns from unit impulses",
         text="FVM1D/FVM2D state constant preservation, linear exactness at interior faces, first-order copies and the circulant "
              "kappa stencil as invariants; the real reconstructions' face states are captured where the model receives them and "
-             "compared exactly (dyadic regime) or within round-off, and the operator on unit impulses is compared with the stencil.",
+             "compared exactly (dyadic regime) or within round-off, and the operator on unit impulses is compared with the stencil. "
+             "Apa_Recon.tla lifts linear exactness (k-schemes for every k, MUSCL with any idempotent limiter) to every non-uniform mesh "
+             "and every linear profile, and the kappa stencil with its moment (order) conditions to every data set and every k "
+             "(Apalache, symbolic).",
         ref="DESIGN.md section 6 C11"),
     "C14": dict(
         technique="TLA+ model checking of shift equivariance of the free-flux periodic operators in 1D and 2D (TLC, all data x all "
